@@ -69,3 +69,14 @@ Theorem C11_old_hidden_dimension_accepted_refuted :
   nc_lookup_dim root [s "b"; s "a"] (s "x") = Some [s "a"] /\
   writer_accepts root true (s "/a/b/ta") [s "x"; s "/a/x"] = false.
 Proof. exists (G [] [s "x"] [] [G (s "a") [s "x"] [] [G (s "b") [] [] []]]). repeat split; reflexivity. Qed.
+
+(* before 8d03027 the parsed attribute was a dict keyed by name: "x: y: maximum y: x: mean" came
+   out as "x: mean y:" (a cell method lost), and two spellings of one target as one word *)
+Theorem C11_old_attribute_dict_refuted :
+  exists rl,
+  lookup_rules "cell_methods" flattening_rules_table = Some rl /\
+  let a := [(s "x", Some []); (s "y", Some [s "maximum"]); (s "y", Some []); (s "x", Some [s "mean"])] in
+  let root := G [] [s "x"; s "y"] [(s "x", 1); (s "y", 1)] [G (s "m") [] [(s "q1", 0)] []] in
+  flatten_attr_dict hash0 root rl false [s "m"] None a = Some (s "x: mean y:") /\
+  flatten_attr hash0 root rl false [s "m"] None a = Some (s "x: y: maximum y: x: mean").
+Proof. eexists. split; [vm_compute; reflexivity|]. split; vm_compute; reflexivity. Qed.
